@@ -27,10 +27,13 @@ def model_eval(T, vals, spec, rootclass=""):
             return ("value", MO.combinations(T, vals, spec["n"], spec["replacement"], spec["axis"])[1])
         if op == "reduce":
             return ("value", MO.reduce(T, vals, spec["name"], spec["axis"], spec["mask"], spec["keepdims"])[1])
-        if op == "sort":
-            return ("value", MO.sort(T, vals, spec["axis"], spec["ascending"], False)[1])
-        if op == "argsort":
-            return ("value", MO.sort(T, vals, spec["axis"], spec["ascending"], True)[1])
+        if op in ("sort", "argsort"):
+            mn, mx = M.minmax_depth(T)
+            a = spec["axis"] if spec["axis"] >= 0 else mx + spec["axis"]
+            if ("'string'" in repr(T) or "'bytes'" in repr(T)) and a != mx - 1 and 0 <= a < mx:
+                # documented refusal: "array with strings can only be sorted with axis=-1"
+                return ("unsupported", "strings sorted at a non-innermost axis (the library documents a refusal)")
+            return ("value", MO.sort(T, vals, spec["axis"], spec["ascending"], op == "argsort")[1])
         if op == "fillna":
             v = spec["value"]
             vt = M.prim("float64") if isinstance(v, float) else M.prim("int64")
@@ -80,6 +83,10 @@ def compare_with_model(desc, spec, strict_bool=True):
     got = tv[1] if tv is not None else plain(res)
     if spec["op"] == "fillna":
         strict_bool = False      # Content::fillna merges bool with the numeric fill value (True -> 1); values are compared numerically
+    if spec["op"] == "argsort" and not spec["stable"] and not M.same_value(got, expected):
+        # unstable: any order among equal elements is right; the positions must realise the sorted values
+        if _argsort_realises(T, vals, spec, got):
+            return "value_agreed_modulo_ties", True
     if not M.same_value(got, expected, strict_bool=strict_bool):
         raise Violation("value:" + op, "%s differs from the reference model" % op, expected=M.jsonable(expected), observed=M.jsonable(got))
     return "value_agreed", (expected is not None and expected != [])
@@ -152,3 +159,41 @@ def region(T, vals, spec):
     if "'unknown'" in r:
         parts.append("unknown")
     return "+".join(parts)
+
+
+def _coords(v, prefix, out):
+    if isinstance(v, list):
+        for i, e in enumerate(v):
+            _coords(e, prefix + (i,), out)
+    else:
+        out[prefix] = v
+
+
+def _argsort_realises(T, vals, spec, positions):
+    """do the returned positions, applied group by group along the axis, give exactly the sorted values?"""
+    try:
+        mn, mx = M.minmax_depth(T)
+        a = spec["axis"] if spec["axis"] >= 0 else mx + spec["axis"]
+        S = MO.sort(T, vals, spec["axis"], spec["ascending"], False)[1]
+        X, P, Sd = {}, {}, {}
+        _coords(vals, (), X)
+        _coords(positions, (), P)
+        _coords(S, (), Sd)
+        if set(P) != set(Sd):
+            return False
+        groups = {}
+        for c, p in P.items():
+            if len(c) <= a:
+                # a missing list above the leaves: must be missing in both
+                if not (p is None and Sd[c] is None):
+                    return False
+                continue
+            if not isinstance(p, int) or isinstance(p, bool):
+                return False
+            c2 = c[:a] + (p,) + c[a + 1:]
+            if c2 not in X or not M.same_value(X[c2], Sd[c]):
+                return False
+            groups.setdefault(c[:a] + c[a + 1:], []).append(p)
+        return all(len(set(g)) == len(g) for g in groups.values())
+    except Exception:  # noqa: B902
+        return False
